@@ -307,16 +307,36 @@ def interp_ctor(p):
                 raise Violation("ctor/element-differs", "%s: element %d is %s, the scalar constructor gives %s" % (where, i, c0[i], exp))
         labels.add("scalar_oracle_exact")
     if k > 1 and n >= 1:
-        for j in range(k):
-            # one argument longer (never shorter: a missing check must not make this harness read out of bounds)
+        # every way of giving SOME of the arguments another length must raise: single arguments, and groups that agree
+        # among themselves (suffixes, prefixes, rows and columns of the 9 / 16 matrix components) - a chain of pairwise
+        # length checks with a missing link accepts exactly such a group.  A wrong acceptance reads out of bounds,
+        # which the ASan build reports as an abort attributed to this program.
+        groups = [[j] for j in range(k)]
+        if k >= 3:
+            for g in range(2, k):
+                groups.append(list(range(k - g, k)))      # suffix
+                groups.append(list(range(0, g)))          # prefix
+            side = 4 if k == 16 else (3 if k == 9 else (2 if k == 4 else 0))
+            if side:
+                for r_ in range(side):
+                    groups.append([side * r_ + c_ for c_ in range(side)])   # one row of components
+                    groups.append([side * c_ + r_ for c_ in range(side)])   # one column
+        wrongs = [n + 1 + (p["a"] % 3)] + ([n - 1] if n >= 2 else []) + [0]
+        todo = [(g, w) for g in groups for w in wrongs]
+        if n > 16:
+            todo = [todo[(q * 7 + p["a"] + p["b"]) % len(todo)] for q in range(6)]
+        for g, w in todo:
             lens = [n] * k
-            lens[j] = n + 1 + (p["a"] % 3)
+            for j in g:
+                lens[j] = w
             try:
                 T(*build(lens))
             except Exception:
                 labels.add("mismatch_raises")
+                if len(g) > 1:
+                    labels.add("group_mismatch_raises")
             else:
-                raise Violation("mismatch/no-exception", "%s with argument %d of length %d (others %d) did not raise" % (where, j, lens[j], n))
+                raise Violation("mismatch/no-exception", "%s with arguments %r of length %d (others %d) did not raise" % (where, g, w, n))
     return dict(nontrivial=n > 200, labels=sorted(labels), desc="%s n=%d" % (where, n))
 
 
@@ -352,8 +372,8 @@ GROUPS = [] if RACE_PASS else [
           "random (entry, length in {0,1,2,199,200,201,202,257,1000}, data seeds, masked self, schedule: up to 8 chunks incl. empty ones, permutation, worker ids, serial/concurrent); non-trivial as above",
           required_labels=["dispatched"]),
     Group("array_ctors", None, interp_ctor, 0, 0,
-          "complete sweep of the %d array constructors that take other arrays (element-type conversions V3fArray(V3dArray) ..., M33/M44 arrays from 9/16 component arrays) x lengths {2, 257} x a generated schedule: element i equals the scalar constructor applied to the i-th elements, result independent of the schedule, each argument made longer in turn must raise; non-trivial = length above the dispatch threshold" % len(CCAT),
-          required_labels=["scalar_oracle_exact", "mismatch_raises", "k16", "k1"], items=ctor_items),
+          "complete sweep of the %d array constructors that take other arrays (element-type conversions V3fArray(V3dArray) ..., M33/M44 arrays from 9/16 component arrays) x lengths {2, 257} x a generated schedule: element i equals the scalar constructor applied to the i-th elements, result independent of the schedule, each argument, and each self-consistent group of arguments (suffixes, prefixes, rows and columns of matrix components), given another length (n+1.., n-1, 0) must raise; non-trivial = length above the dispatch threshold" % len(CCAT),
+          required_labels=["scalar_oracle_exact", "mismatch_raises", "group_mismatch_raises", "k16", "k1"], items=ctor_items),
     Group("grid_ops", None, interp_grid, 0, 0,
           "complete sweep of the %d catalogued element-wise operators of FixedArray2D (Int/Float/Double/Color4f/Color4c) and FixedMatrix (Int/Float/Double) x argument kinds (none / same-shape container / scalar) on generated shapes up to 6x5: every element compared with the scalar operation (C semantics for numbers, the scalar binding for colours), operands untouched, other-shape operands must raise; non-trivial = more than one element" % len(GCAT),
           required_labels=["scalar_oracle_exact", "mismatch_raises", "inplace_operator", "array"], items=grid_items),
